@@ -440,6 +440,19 @@ def main(argv=None):
                 if fn not in contracted:
                     f.kind = 'undecided'
                     f.message = 'needs-contract: %s in %s, a function without a contract' % (f.message, fn)
+    # clauses of *other* components that this property's argument merely rests on (C18: the three stages' own contracts; the
+    # property is that Keyboard forwards to them faithfully): when one of them fails the argument is incomplete, but the
+    # property itself may well hold - undecided, and its stand-ins (Keyboard against the real stages) decide
+    sup = PROPS[prop].get('support_fns')
+    if sup and deductive_ok:
+        for f in mine:
+            if f.kind == 'semantic' and f.oid in R and R[f.oid].get('kind') == 'clause' and re.search(sup, R[f.oid].get('fn') or ''):
+                site = getattr(f, 'site', None) or ''
+                if site.startswith('Keyboard::'):
+                    continue
+                f.kind = 'undecided'
+                f.support = True
+                f.message = 'a contract this property rests on fails (%s): its own argument is incomplete' % f.message
     findings = load_findings()
     open_f = {(x['property'], x['obligation']): x for x in findings if x.get('status') == 'open'}
     # the `#observed` twin of a listed cell only says "the defect still has its recorded shape"; when the cell itself is
@@ -534,6 +547,27 @@ def main(argv=None):
                 continue
             path = write_replay(prop, f.oid, R.get(f.oid) or info.obligations.get((f.oid or '').split('/call:')[-1]), info, res, f, extra)
             real.append((f.oid, path, extra))
+
+    # ------------------------------------------------------------------ clauses rejected while the deductive argument is incomplete
+    # (an opaque function, a lost anchor ...): the rejection itself proves nothing, but the clause's scenario family can still
+    # be searched for a concrete failing input on the real code - and a reproduced counterexample is a violation regardless
+    if not real and undecided and not verdicts_valid and deductive_ok:
+        from . import cex
+        tried_fam = set()
+        for f in [x for x in undecided if x.kind == 'semantic' and not getattr(x, 'support', False) and x.oid in R and R[x.oid].get('kind') == 'clause'][:6]:
+            fam = (R[f.oid].get('fn'), )
+            if fam in tried_fam:
+                continue
+            tried_fam.add(fam)
+            try:
+                extra = cex.find(prop, f, R, info)
+            except Exception as e:
+                extra = None
+            ce = (extra or {}).get('counterexample')
+            if ce and ((extra or {}).get('native_replay') or {}).get('reproduced'):
+                path = write_replay(prop, f.oid, R.get(f.oid), info, res, f, extra)
+                real.append((f.oid, path, extra))
+                break
 
     # ------------------------------------------------------------------ stand-ins when the deductive verdict is undecided (and always in the thorough tier)
     standin_cov = None
